@@ -110,7 +110,11 @@ func (interp *Interpreter) gta(root *node, rpath, importPath, pkgName string) ([
 			return false
 
 		case defineXStmt:
-			if err = compDefineX(sc, n); err != nil {
+			if err2 := compDefineX(sc, n); err2 != nil {
+				// The called function may not be declared yet, stash the error and
+				// come back when it is known.
+				n.meta = err2
+				revisit = append(revisit, n)
 				return false
 			}
 			// Package variables keep track of their declaration, for initialization ordering.
@@ -423,7 +427,7 @@ func (interp *Interpreter) gtaRetry(nodes []*node, importPath, pkgName string) e
 			if err := definedType(n.typ); err != nil {
 				return err
 			}
-		case defineStmt, funcDecl:
+		case defineStmt, defineXStmt, funcDecl:
 			if err, ok := n.meta.(error); ok {
 				return err
 			}
